@@ -93,6 +93,12 @@ def rule_panic_census(ctx, entries=C08_ENTRIES, cfg='prod-all', with_serde=True,
                 what += ' for some input of this entry point (needs %s)' % ', '.join('%s <= %s' % (tfmt(a), tfmt(b)) for a, b in s.pre)
             if aud is not None and not aud[0]:
                 what += ' [audit entry present but its structural fingerprint no longer holds: %s]' % aud[2]
+            if getattr(s.origin or s, 'debug_only', False):
+                # a debug assertion states what its author holds to be implied by the code before it; it is not part of a build without debug
+                # assertions.  Where the facts do not prove it the site is listed as undecided, not as a panic of the library.
+                yield Ob(rule, key, None, 'debug assertion not proven from the facts at its site (absent from builds without debug assertions)', where,
+                         fact={'status': status, 'need': need, 'site': s.desc}, expected='discharged')
+                continue
             yield Ob(rule, key, False, what, where, fact={'status': status, 'need': need, 'site': s.desc}, expected='discharged or audited')
     yield Ob(rule, 'census#reachable-functions', len(reach) >= min_functions, 'functions reachable from the entry points', '',
              fact={'functions': len(reach), 'sites': n_sites, 'entry_points': len(eps)}, expected='>= %d functions' % min_functions, nontrivial=False)
